@@ -366,6 +366,8 @@ def run(seed=0, rounds=400):
         check('sorted-descending-by-key', all(srt[i][::-1] >= srt[i + 1][::-1] for i in range(2)) and sorted(srt) == sorted(items), items)
         da, db = {'m': rnd.randint(-2, 2), 's': rnd.randint(-2, 2)}, {'s': rnd.randint(-2, 2), 'm': rnd.randint(-2, 2)}
         check('dict-equality-is-pointwise', (da == db) == (set(da) == set(db) and all(da[k] == db[k] for k in da)), da, db)
+    from native import axioms_c13
+    axioms_c13.run(rng, check)
     print('AXIOMS ' + json.dumps(dict(rounds=rounds, failures=fails[:5])))
     ok_sets = run_sets(seed)
     ok_ev = evaluable_nodes(seed)
